@@ -11,7 +11,9 @@ import (
 	"flag"
 	"fmt"
 	"net"
+	"regexp"
 	"runtime"
+	"strconv"
 	"strings"
 	"time"
 
@@ -101,6 +103,11 @@ func cpsBytes(c cpsReply) []byte {
 }
 
 func payloadBytes(v vector, addr string) ([]byte, string) {
+	if v.Form == "request" {
+		var r reqVec
+		json.Unmarshal(v.Payload, &r)
+		return nil, fmt.Sprintf("%s %q", r.Class, r.Name)
+	}
 	if v.Form == "cps" {
 		var c cpsReply
 		json.Unmarshal(v.Payload, &c)
@@ -230,6 +237,57 @@ func incomplete(v vector) bool {
 		return b.Kind == "arrayhdrs" || b.Kind == "repeat"
 	}
 	return false
+}
+
+// request vectors (form "request"): well-formed requests with adversarial argument bytes
+type reqVec struct {
+	Class string     `json:"class"`
+	Name  string     `json:"name"`
+	Reqs  [][]string `json:"reqs"`
+}
+
+var fillRe = regexp.MustCompile(`\{fill:(\d+)\}`)
+
+// expandArg replaces the placeholders of Malformed.tla: {00} {ff} single bytes, {fill:n} n filler bytes
+func expandArg(a string) []byte {
+	a = fillRe.ReplaceAllStringFunc(a, func(m string) string {
+		n, _ := strconv.Atoi(fillRe.FindStringSubmatch(m)[1])
+		return strings.Repeat("k", n)
+	})
+	return []byte(strings.NewReplacer("{00}", "\x00", "{ff}", "\xff").Replace(a))
+}
+
+// clientRequests sends the requests of the vector back to back on one connection and reads one reply per request:
+// "reply" (all of them), "closed", "timeout" (a request was left without a reply and the connection stayed open)
+func clientRequests(c *sut.Client, rv reqVec, rec *record) {
+	var raw []byte
+	for _, r := range rv.Reqs {
+		args := make([][]byte, len(r))
+		for i, a := range r {
+			args[i] = expandArg(a)
+		}
+		raw = resp.Append(raw, resp.CmdB(args...))
+	}
+	go c.Send(raw)
+	dl := time.Now().Add(10 * time.Second)
+	n := 0
+	for n < len(rv.Reqs) {
+		left := time.Until(dl)
+		if left < 100*time.Millisecond {
+			left = 100 * time.Millisecond
+		}
+		if _, err := c.Recv(left); err != nil {
+			if strings.Contains(err.Error(), "timeout") {
+				rec.Outcome = "timeout"
+			} else {
+				rec.Outcome = "closed"
+			}
+			rec.Reply = fmt.Sprintf("%d of %d replies", n, len(rv.Reqs))
+			return
+		}
+		n++
+	}
+	rec.Outcome, rec.Reply = "reply", fmt.Sprintf("%d replies", n)
 }
 
 // isRun: the vector is a run of one unit (kind "repeat")
@@ -383,6 +441,16 @@ func (e *env) runVector(id int, v vector) (rec record) {
 			return
 		}
 		defer c.Close()
+		if v.Form == "request" {
+			var rv reqVec
+			if err := json.Unmarshal(v.Payload, &rv); err != nil {
+				rec.Err = err.Error()
+				return
+			}
+			clientRequests(c, rv, &rec)
+			rec.Witness = e.witness(other, 1)
+			return
+		}
 		if isRun(v) {
 			clientRun(c, raw, &rec)
 			rec.Witness = e.witness(other, 1)
